@@ -2,3 +2,9 @@ import Indi.Properties.C08
 #print axioms Indi.Sys.C08_codec
 #print axioms Indi.Sys.C08_codec_chars
 #print axioms Indi.Sys.C08_codec_length
+#print axioms Indi.Sys.C08_down
+#print axioms Indi.Sys.C08_up
+#print axioms Indi.Sys.C08_publish
+#print axioms Indi.Sys.Ex08.C08_publish_needs_format
+#print axioms Indi.Sys.Ex08.C08_publish_needs_distinct_names
+#print axioms Indi.Sys.Ex08.C08_publish_needs_address
